@@ -141,7 +141,6 @@ pub fn known_match<'a>(known: &'a [Known], v: &Violation) -> Option<&'a Known> {
 struct VLine {
     idx: u64,
     violations: Vec<Violation>,
-    case: Value,
 }
 
 pub fn worker_main<P: Prop>(tier: Tier, seed: u64, shard: u64, of: u64, from: u64) -> i32 {
@@ -179,11 +178,8 @@ pub fn worker_main<P: Prop>(tier: Tier, seed: u64, shard: u64, of: u64, from: u6
             }
         }
         if !vs.is_empty() {
-            let line = VLine {
-                idx: i,
-                violations: vs,
-                case: serde_json::to_value(&case).unwrap(),
-            };
+            // the case itself is not sent: the supervisor regenerates it from (seed, index)
+            let line = VLine { idx: i, violations: vs };
             let mut o = out.lock();
             let _ = writeln!(o, "V {}", serde_json::to_string(&line).unwrap());
             let _ = o.flush();
@@ -418,7 +414,8 @@ pub struct Found {
     pub idx: u64,
     pub profile: &'static str,
     pub violation: Violation,
-    pub case: Option<Value>,
+    /// reported by a live worker (true) or inferred from a worker's death / stall (false)
+    pub in_process: bool,
 }
 
 pub struct RunOutcome {
@@ -512,7 +509,7 @@ pub fn run_all<P: Prop>(tier: Tier, seed: u64, workers: usize) -> RunOutcome {
                                     idx: v.idx,
                                     profile: sl.profile,
                                     violation: viol,
-                                    case: Some(v.case.clone()),
+                                    in_process: true,
                                 });
                             }
                         }
@@ -553,7 +550,7 @@ pub fn run_all<P: Prop>(tier: Tier, seed: u64, workers: usize) -> RunOutcome {
                         "worker exited without reporting".to_string(),
                     ),
                 };
-                out.found.push(Found { idx, profile: sl.profile, violation: v, case: None });
+                out.found.push(Found { idx, profile: sl.profile, violation: v, in_process: false });
                 sl.deaths += 1;
                 let next = idx + of;
                 if sl.deaths <= 10 && next < n {
@@ -587,7 +584,7 @@ pub fn run_all<P: Prop>(tier: Tier, seed: u64, workers: usize) -> RunOutcome {
                             idx,
                             profile: sl.profile,
                             violation: Violation::new(P::ID, "process_stall", format!("top={top}"), format!("no heartbeat for {}s", P::STALL_SECS)),
-                            case: None,
+                            in_process: false,
                         });
                         let _ = sl.child.kill();
                         sl.last_beat = Instant::now();
@@ -636,7 +633,7 @@ pub fn check_main<P: Prop>(tier: Tier, seed: u64, workers: usize, extra: Option<
         exit = 2;
     }
     let expected = n * profiles;
-    if exit == 0 && outc.stats.cases + outc.unexplored != expected && outc.found.iter().all(|f| f.case.is_some()) {
+    if exit == 0 && outc.stats.cases + outc.unexplored != expected && outc.found.iter().all(|f| f.in_process) {
         eprintln!("HARNESS-ERROR: executed {} cases, expected {expected}", outc.stats.cases);
         exit = 2;
     }
@@ -663,12 +660,9 @@ pub fn check_main<P: Prop>(tier: Tier, seed: u64, workers: usize, extra: Option<
             continue;
         }
         // write replay file (unshrunk), shrink in a child, verify in a child
-        let case_val = match &f.case {
-            Some(c) => c.clone(),
-            None => {
-                let cs = case_seed(seed, P::ID, f.idx);
-                serde_json::to_value(P::gen(cs, f.idx, tier)).unwrap()
-            }
+        let case_val = {
+            let cs = case_seed(seed, P::ID, f.idx);
+            serde_json::to_value(P::gen(cs, f.idx, tier)).unwrap()
         };
         let rf = ReplayFile {
             property: P::ID.to_string(),
